@@ -37,7 +37,7 @@ EntryPool ==
   {Entry("set", "s", "two", src, v, 0) : src \in {"", "h1"}, v \in {"size0", "size1", "size2-utf8"}}
 Compressions == {[type |-> "none", level |-> 0]} \cup {[type |-> t, level |-> l] : t \in {"zlib", "lz4"}, l \in 0..9}
 EventPool == {[title |-> ti, text |-> tx, date |-> d, src |-> s, agg |-> a, stype |-> a, tags |-> tg, pri |-> p, alert |-> al] :
-                ti \in {"t"}, tx \in {"plain", "newline-utf8"}, d \in {"zero", "set"}, s \in {"", "h1"}, a \in {"", "k"},
+                ti \in {"t"}, tx \in {"plain", "newline-utf8", "long"}, d \in {"zero", "set"}, s \in {"", "h1"}, a \in {"", "k"},
                 tg \in {"none", "two"}, p \in {"normal", "low"}, al \in {"info", "warning", "error", "success"}}
 
 RoundTripOK == /\ \A e \in EntryPool : FromPb(ToPb(e)) = Strip(e)
